@@ -190,7 +190,7 @@ def _step(st, objs):
         h3 = CanonRSMI.remap_graph(h, [(i + 1, n) for i, n in enumerate(order)])
         CanonRSMI.sync_atom_map_with_index(h2)
         CanonRSMI.sync_atom_map_with_index(h3)
-        return dict(model=None, full=[[list(p) for p in pairs], [list(p) for p in pairs2], E.obs_mgraph(h2), E.obs_mgraph(h3)])
+        return dict(model=E.obs_mgraph(h2), full=[[list(p) for p in pairs], [list(p) for p in pairs2], E.obs_mgraph(h2), E.obs_mgraph(h3)])
     if op == "snew":
         from synkit.Chem.Reaction.standardize import Standardize
         objs[st["obj"]] = Standardize()
@@ -252,7 +252,11 @@ def _step(st, objs):
             ins = rs if api != "dicts_one" else rs[:1]
             vs = [(r in nb) for r in ins]
             full = [vs, nb, nu, flags_ok, len(bal) + len(unb)]
-            part = [vs, [ins.index(x) if x in ins else -1 for x in nb], [ins.index(x) if x in ins else -1 for x in nu]]
+            if api == "dicts":          # records carry their position as "id": repeated reactions stay distinguishable
+                ib, iu = [x.get("id", -1) for x in bal], [x.get("id", -1) for x in unb]
+                part = [[i in ib for i in range(len(ins))], ib, iu]
+            else:
+                part = [vs, [ins.index(x) if x in ins else -1 for x in nb], [ins.index(x) if x in ins else -1 for x in nu]]
             if st.get("mutate"):
                 for x in bal + unb:
                     x["balanced"] = not x["balanced"]
